@@ -25,7 +25,8 @@ for id in "$@"; do
   total=$((total+1))
   out=$(cd $M/verif && CARGO_TARGET_DIR=$M/target VERIF_REPO=$M/repo ./check $id --tier ${TIER:-quick} 2>&1)
   echo "$out" | grep -E "^\[|VIOLATION|KNOWN" | head -12
-  if echo "$out" | grep -q "^VIOLATION property=$id"; then caught=$((caught+1)); for r in $(echo "$out" | grep -o "replay=[^ ]*" | head -2); do echo "--- ${r#replay=}"; head -12 "${r#replay=}"; done; fi
+  # VIOLATION lines always carry the PARENT property id (first three characters of a sub-check id)
+  if echo "$out" | grep -q "^VIOLATION property=${id:0:3} "; then caught=$((caught+1)); for r in $(echo "$out" | grep -o "replay=[^ ]*" | head -2); do echo "--- ${r#replay=}"; head -12 "${r#replay=}"; done; fi
 done
 git -C /repo worktree remove --force $M/repo 2>/dev/null; rm -rf $M/repo $M/verif
 echo "mutant: caught by $caught of $total checks"
